@@ -386,8 +386,13 @@ def c08_cfi(run, v1, ed):
         same_pos_before[pos] += len(pb)
         # inside iff the insertion point was inside a procedure: state just before pos, or at pos, is a procedure state;
         # an insertion at the very end of a procedure (position of its .cfi_endproc) is covered as well
-        inside = (pos > 0 and c0.get(pos - 1) is not None and (c0.get(pos) is not None or run.get("endproc_positions", set()) & {pos})) or \
-                 (c0.get(pos) is not None and pos not in run.get("startproc_positions", set()))
+        # code inserted at the END of the block that carries the .cfi_endproc (same position) is placed before the directive and
+        # is covered; code inserted at offset 0 of the NEXT block at that position comes after it and is not
+        at_block_end = (pos - run["block_bases"][t]) == run["block_sizes0"][t] and run["block_sizes0"][t] > 0
+        at_endproc = bool(run.get("endproc_positions", set()) & {pos}) and at_block_end
+        at_block_start_after_endproc = bool(run.get("endproc_positions", set()) & {pos}) and not at_block_end
+        inside = (pos > 0 and c0.get(pos - 1) is not None and (c0.get(pos) is not None or at_endproc) and not at_block_start_after_endproc) or \
+                 (c0.get(pos) is not None and pos not in run.get("startproc_positions", set()) and not at_block_start_after_endproc)
         if inside:
             for k in range(len(pb)):
                 if c1.get(start + k) is None:
